@@ -315,13 +315,19 @@ func (h *Handler) handleMessage(ss *ShellStream, data []byte, flags uint8) {
 
 // handleStdin writes stdin data to the session.
 func (h *Handler) handleStdin(ss *ShellStream, data []byte) {
+	// Do not hold ss.mu across the write: it blocks while the process is not
+	// reading, and the output pumps take ss.mu on every iteration. A process
+	// that echoes more than a pipe buffer of stdin would otherwise deadlock
+	// (stdin write waits for the process, the process waits for its stdout to
+	// be drained, the stdout pump waits for ss.mu).
 	ss.mu.Lock()
-	defer ss.mu.Unlock()
+	ptySession, session := ss.PTYSession, ss.Session
+	ss.mu.Unlock()
 
-	if ss.PTYSession != nil {
-		ss.PTYSession.Write(data)
-	} else if ss.Session != nil {
-		ss.Session.Stdin().Write(data)
+	if ptySession != nil {
+		ptySession.Write(data)
+	} else if session != nil {
+		session.Stdin().Write(data)
 	}
 }
 
@@ -387,7 +393,10 @@ func (h *Handler) writeEncrypted(ss *ShellStream, data []byte, flags uint8) erro
 // pumpOutput reads from a reader and sends encoded messages to the client.
 // The encoder function determines the message type (stdout or stderr).
 func (h *Handler) pumpOutput(ss *ShellStream, getReader func() io.Reader, encode func([]byte) []byte) {
-	buf := make([]byte, 16*1024) // 16KB buffer
+	// Each chunk becomes one message (1 type byte) sealed into one frame payload:
+	// it must fit in a single frame, because the receiver can only open a
+	// complete ciphertext.
+	buf := make([]byte, protocol.MaxPayloadSize-crypto.EncryptionOverhead-1)
 	for {
 		ss.mu.Lock()
 		session := ss.Session
@@ -436,7 +445,10 @@ func (h *Handler) pumpStderr(ss *ShellStream) {
 
 // pumpPTYOutput reads PTY output and sends it to the client.
 func (h *Handler) pumpPTYOutput(ss *ShellStream) {
-	buf := make([]byte, 16*1024) // 16KB buffer
+	// Each chunk becomes one message (1 type byte) sealed into one frame payload:
+	// it must fit in a single frame, because the receiver can only open a
+	// complete ciphertext.
+	buf := make([]byte, protocol.MaxPayloadSize-crypto.EncryptionOverhead-1)
 	for {
 		ss.mu.Lock()
 		ptySession := ss.PTYSession
